@@ -125,6 +125,7 @@ type Gen struct {
 	specDepth  int
 	absCache   map[string]Term
 	hasHeavy   bool
+	absHeaps   map[string]bool
 	sfDefs     map[string]*sfDef
 	noDefine   int
 	callChain  string
